@@ -26,10 +26,9 @@ SPEC = dict(
          "(mostly starting with a correct login); a fresh server, victim login and attacker connection per script. Every line compares "
          "with the Lean model: canonical elements received by attacker and victim, stanzas the attacker's QXmppIncomingClient emitted "
          "for routing, clientConnected/clientDisconnected signals, the jid at each auth.success counter and the server-side jid() after "
-         "the step. Inputs on which the C++ dereferences an unset sasl2AuthRequest are predicted 'ub' by the "
-         "model and not executed; a write through a routing entry that outlived its connection is observed (incoming clients are "
-         "kept alive until the end of the script, the write shows up as a 'sent' log of a closed client) and must be predicted "
-         "'ub' by the model; both are also run for real in a child process (crash = finding). The witnesses of the four former findings are the first corpus scripts. A sequence is non-trivial when it yields >= 2 distinct observations.",
+         "the step. A write to a connection that is gone (through a routing entry that outlived it) would be observed -- "
+         "incoming clients are kept alive until the end of the script, the write shows up as a 'sent' log of a closed client -- and the "
+         "model predicts none; the two former crash witnesses are also run for real in a child process (must survive). The witnesses of the four former findings are the first corpus scripts. A sequence is non-trivial when it yields >= 2 distinct observations.",
     trusted_base=[
         "Lean 4.33.0 kernel; axioms per theorem listed under coverage.theorems (subset of propext, Classical.choice, Quot.sound)",
         "hand-written model lean/Qx/Model/C16Server.lean, tied to src/server/QXmppIncomingClient.cpp, src/server/QXmppServer.cpp, "
@@ -47,26 +46,26 @@ SPEC = dict(
         "no server extensions, no S2S listener, no TLS (setLocalCertificate not called): default stanza handler only",
         "server-to-server (QXmppIncomingServer/QXmppOutgoingServer, dialback) is OUT OF SCOPE: no S2S listener, stanzas to other "
         "domains are not routed",
-        "inputs that reach undefined behaviour in the C++ (SASL2 success with a reset or never-set sasl2AuthRequest; a write "
-        "through a routing-table entry that outlived its connection) produce an 'ub' output; nothing is claimed after such a point",
+        "the model keeps an 'ub' output where onSasl2Authenticated() would read an unset sasl2AuthRequest; since repo commit b1ba6cb no "
+        "explored script reaches it (not proved unreachable); the configured domain is assumed to contain no '/' (literal theorems)",
         "JIDs are compared as raw strings as the code does (no stringprep / case folding): an address in another case is simply "
         "another address",
         "bind resources are not trimmed in the model (the harness sends none with surrounding white space); generated resources are "
         "canonicalised by order of first appearance",
     ],
     level_text="Theorems for every checker (arbitrary, or getPassword-derived as the library defaults do), every number of connections "
-               "and every interleaving: a connection's jid is always derived (user@domain cut at the first '/', plus /resource) from "
-               "a user name whose credential the checker approved (auth_only_if_checker_approved, auth_only_if_getPassword_approves); "
-               "nothing is bound/routed/answered before authentication (needs_auth_only_authenticated); every routed or delivered "
-               "stanza carries the sending connection's own jid or its bare form (from_is_authenticated_jid, cannot_spoof, "
-               "cannot_spoof_approved, replies_addressed_to_sender). The LITERAL form 'jid = approved user@domain[/resource]' is "
-               "proved only when no approved name contains '/' (*_literal_partial) and refuted otherwise "
-               "(C16_defect_username_with_slash, C16_defect_slash_name_spoofs). Model tied to the real server by exhaustive + random "
-               "loopback scripts with one and two attacker connections and two checker flavours.",
-    level_note="Proved about the hand-written model; model-to-code tie is differential (exhaustive to a depth, sampled beyond). Open "
-               "findings: names with '/' or '@' accepted (identity of another user after bind), routing entries that outlive their "
-               "connection (crash), SASL2 success with an unset request (crash); fix diffs in fixes/. S2S/dialback out of scope. "
-               "The four findings of the first round are fixed in the repo (73b9a89, e590a14).",
+               "and every interleaving, no hypothesis on the scripts: a connection's jid is literally user@domain[/resource] for a "
+               "well-formed user name whose credential the checker approved (auth_only_if_checker_approved[_literal], "
+               "auth_only_if_getPassword_approves); nothing is bound/routed/answered before authentication "
+               "(needs_auth_only_authenticated, routes_/bind_only_authenticated); every routed or delivered stanza carries the "
+               "sending connection's own jid or its bare form (from_is_authenticated_jid, cannot_spoof, cannot_spoof_approved, "
+               "cannot_spoof_literal, replies_addressed_to_sender); the routing tables only ever reference open connections "
+               "(tables_reference_open_connections, never_routes_to_closed_connection). Model tied to the real server by exhaustive "
+               "+ random loopback scripts with one and two attacker connections and two checker flavours.",
+    level_note="Proved about the hand-written model; model-to-code tie is differential (exhaustive to a depth, sampled beyond). No open "
+               "finding: the seven findings of this property (pre-auth stanza/bind/session, reply confusion, names with '/' or '@', "
+               "stale routing entries, SASL2 request unset) are fixed in the repo (73b9a89, e590a14, f6325af, c3084c3, b1ba6cb); their "
+               "witnesses stay in the corpus. S2S/dialback, stringprep/case folding of JIDs, extensions and TLS are out of scope.",
     design_ref="5.16",
     technique="Lean 4 invariant proofs over op lists + model/implementation correspondence on loopback",
 )
